@@ -328,5 +328,40 @@ pub fn run(out: &mut Out, tier: &str, seed: u64, _scratch: &str) {
         out.case(&format!("c13 prog {pos} {name}"), &real);
     }
     let _ = std::fs::remove_dir_all("/verif/.build/batch/c13");
+    // multi-file positions: an item of another module under this name, and this name as the alias of an import
+    // (built as real two-file projects; a few names per run, all of them in the thorough tier)
+    {
+        let mut names: Vec<String> = vec!["zeta".to_string()];
+        let pool: Vec<&String> = legal_kw.iter().filter(|k| !["type", "Self", "self", "crate", "super"].contains(&k.as_str())).collect();
+        let take = if tier == "thorough" { pool.len() } else { 3 };
+        for i in 0..take {
+            let k = pool[(seed as usize + i * 7) % pool.len()].clone();
+            if !names.contains(&k) { names.push(k); }
+        }
+        let mut results: Vec<(String, String, String)> = Vec::new(); // (position, name, shown)
+        for name in &names {
+            for pos in ["importitem", "importalias"] {
+                let root = format!("/verif/.build/batch/c13proj");
+                let _ = std::fs::remove_dir_all(&root);
+                std::fs::create_dir_all(format!("{root}/src")).expect("mkdir");
+                let (helper, main) = if pos == "importitem" {
+                    (format!("pub def {name}(n: int) -> int:\n    return n + 1\n"), format!("from helper import {name}\n\ndef main() -> None:\n    println({name}(2))\n"))
+                } else {
+                    ("pub def plain(n: int) -> int:\n    return n + 1\n".to_string(), format!("from helper import plain as {name}\n\ndef main() -> None:\n    println({name}(2))\n"))
+                };
+                std::fs::write(format!("{root}/src/helper.incn"), helper).expect("w");
+                std::fs::write(format!("{root}/src/main.incn"), main).expect("w");
+                let o = runner::build_project(&format!("{root}/src/main.incn"), &format!("{root}/out"), "/verif/.build/batch-target-proj");
+                results.push((pos.to_string(), name.clone(), runner::show(&o)));
+                let _ = std::fs::remove_dir_all(&root);
+            }
+        }
+        for (pos, name, shown) in &results {
+            let b = results.iter().find(|(p, n, _)| p == pos && n == "zeta").map(|x| x.2.clone()).unwrap_or_default();
+            let real = if !b.starts_with("ran code=0") { format!("baseline-broken {b}") } else if *shown == b { "same".to_string() } else { format!("differs {shown}") };
+            *hist.entry(real.split(' ').next().unwrap_or("").to_string()).or_insert(0) += 1;
+            out.case(&format!("c13 prog {pos} {name}"), &real);
+        }
+    }
     out.meta(&serde_json::json!({"programs": cases.len(), "positions": POSITIONS.len(), "keywords_legal_in_incan": legal_kw, "outcome_histogram": hist, "probes": probes.len()}));
 }
